@@ -663,14 +663,15 @@ theorem wsRead_upok (mode : Mode) (accept : Bytes) (st : St) (av : Bytes) (h : U
   simp only [h.1, Bool.not_true, Bool.false_eq_true, if_false]
   exact ⟨by rw [readFrame_up]; exact h.1, (readFrame_ok mode rxBuf _ st av h.2).1⟩
 
-theorem readSession_upok (mode : Mode) (accept : Bytes) : ∀ (fuel : Nat) (st : St) (av : Bytes), UpOk st →
-    ∀ st', (readSession mode accept fuel st av).2.1 = .open st' → UpOk st' := by
+theorem readSession_pres (mode : Mode) (accept : Bytes) (Q : St → Prop)
+    (hQ : ∀ st av, Q st → Q (wsRead mode accept rxBuf st av).2.1) : ∀ (fuel : Nat) (st : St) (av : Bytes), Q st →
+    ∀ st', (readSession mode accept fuel st av).2.1 = .open st' → Q st' := by
   intro fuel
   induction fuel with
   | zero => intro st av h st' e; simp only [readSession, Sess.open.injEq] at e; exact e ▸ h
   | succ f ih =>
     intro st av h st' e
-    have hw := wsRead_upok mode accept st av h
+    have hw := hQ st av h
     rw [readSession] at e
     generalize wsRead mode accept rxBuf st av = r at hw e
     obtain ⟨ret, st1, av1⟩ := r
@@ -685,8 +686,9 @@ theorem readSession_upok (mode : Mode) (accept : Bytes) : ∀ (fuel : Nat) (st :
       · exact ih st1 av1 hw st' e
       · simp only [Sess.open.injEq] at e; exact e ▸ hw
 
-theorem feedChunk_upok (mode : Mode) (accept : Bytes) : ∀ (fuel idle : Nat) (st : St) (av : Bytes), UpOk st →
-    ∀ st', (feedChunk mode accept fuel idle st av).2.1 = .open st' → UpOk st' := by
+theorem feedChunk_pres (mode : Mode) (accept : Bytes) (Q : St → Prop)
+    (hQ : ∀ st av, Q st → Q (wsRead mode accept rxBuf st av).2.1) : ∀ (fuel idle : Nat) (st : St) (av : Bytes), Q st →
+    ∀ st', (feedChunk mode accept fuel idle st av).2.1 = .open st' → Q st' := by
   intro fuel
   induction fuel with
   | zero => intro idle st av h st' e; simp only [feedChunk, Sess.open.injEq] at e; exact e ▸ h
@@ -696,7 +698,7 @@ theorem feedChunk_upok (mode : Mode) (accept : Bytes) : ∀ (fuel idle : Nat) (s
     by_cases h0 : av.length = 0
     · simp only [if_pos h0, Sess.open.injEq] at e; exact e ▸ h
     · simp only [if_neg h0] at e
-      have hs := readSession_upok mode accept (av.length + fsCap + 2) st av h
+      have hs := readSession_pres mode accept Q hQ (av.length + fsCap + 2) st av h
       generalize readSession mode accept (av.length + fsCap + 2) st av = r at hs e
       obtain ⟨ms, sess, av1⟩ := r
       cases sess with
@@ -713,15 +715,16 @@ theorem feedChunk_upok (mode : Mode) (accept : Bytes) : ∀ (fuel idle : Nat) (s
 
 /-- every reader state the event loop leaves behind in the frame phase is `RdOk` (for `coap_read_session`'s 1472-byte
 buffer, hence for `coap_ws_close`'s 100 bytes) -/
-theorem feed_upok (mode : Mode) (accept : Bytes) : ∀ (chunks : List Bytes) (st : St), UpOk st →
-    ∀ st', (feed mode accept st chunks).2.1 = .open st' → UpOk st' := by
+theorem feed_pres (mode : Mode) (accept : Bytes) (Q : St → Prop)
+    (hQ : ∀ st av, Q st → Q (wsRead mode accept rxBuf st av).2.1) : ∀ (chunks : List Bytes) (st : St), Q st →
+    ∀ st', (feed mode accept st chunks).2.1 = .open st' → Q st' := by
   intro chunks
   induction chunks with
   | nil => intro st h st' e; simp only [feed, Sess.open.injEq] at e; exact e ▸ h
   | cons c cs ih =>
     intro st h st' e
     rw [feed] at e
-    have hc := feedChunk_upok mode accept (6 * (c.length + 1)) 0 st c h
+    have hc := feedChunk_pres mode accept Q hQ (6 * (c.length + 1)) 0 st c h
     generalize feedChunk mode accept (6 * (c.length + 1)) 0 st c = r at hc e
     obtain ⟨ms, sess, stuck⟩ := r
     cases sess with
@@ -731,5 +734,247 @@ theorem feed_upok (mode : Mode) (accept : Bytes) : ∀ (chunks : List Bytes) (st
       cases stuck with
       | true => simp only [Sess.open.injEq] at e; exact e ▸ hc st1 rfl
       | false => exact ih st1 (hc st1 rfl) st' e
+
+theorem feed_upok (mode : Mode) (accept : Bytes) (chunks : List Bytes) (st : St) (h : UpOk st) :
+    ∀ st', (feed mode accept st chunks).2.1 = .open st' → UpOk st' :=
+  feed_pres mode accept UpOk (wsRead_upok mode accept) chunks st h
+
+/-! the same through the HTTP upgrade -/
+
+/-- a reader state of a whole connection: `RdOk`, and `all_hdr_in` is clear while the handshake is running -/
+def ConnOk (st : St) : Prop := RdOk rxBuf st ∧ (st.up = false → st.allHdrIn = false)
+
+theorem connOk_init : ConnOk {} := ⟨⟨by decide, fun h => by cases h⟩, fun _ => rfl⟩
+
+def LinesOk : Lines → Prop
+  | .cont st' => ConnOk st' ∧ st'.up = false
+  | .up st' => ConnOk st' ∧ st'.up = true
+  | _ => True
+
+def HdrResOk : R (St × Bytes) → Prop
+  | R.ok (st', _) => ConnOk st'
+  | _ => True
+
+theorem lineLoop_connOk (mode : Mode) (accept : Bytes) : ∀ (fuel : Nat) (st : St), ConnOk st → st.up = false →
+    LinesOk (lineLoop mode accept fuel st) := by
+  intro fuel
+  induction fuel with
+  | zero => intro st h hu; simp only [lineLoop]; exact ⟨h, hu⟩
+  | succ f ih =>
+    intro st h hu
+    rw [lineLoop]
+    split
+    · exact ⟨h, hu⟩
+    · simp only
+      split
+      · trivial
+      · rename_i s' endLine _
+        split
+        · split
+          · split
+            · trivial
+            · rename_i hrem
+              exact ⟨⟨RdOk_noall (by simpa using Nat.le_of_not_gt hrem) (h.2 hu), fun hh => by cases hh⟩, rfl⟩
+          · trivial
+        · exact ih _ ⟨⟨h.1.1, h.1.2⟩, h.2⟩ hu
+
+theorem rdHttpHeader_connOk (mode : Mode) (accept : Bytes) : ∀ (fuel : Nat) (st : St) (av : Bytes), ConnOk st →
+    HdrResOk (rdHttpHeader mode accept fuel st av) := by
+  intro fuel
+  induction fuel with
+  | zero => intro st av h; simp only [rdHttpHeader]; exact h
+  | succ f ih =>
+    intro st av h
+    rw [rdHttpHeader]
+    split
+    · exact h
+    · rename_i hu
+      simp only
+      generalize (if httpCap - 1 - st.httpHdr.length > fsCap then fsCap else httpCap - 1 - st.httpHdr.length) = rem
+      split
+      · trivial
+      · split
+        · exact h
+        · split
+          · trivial
+          · have hu' : st.up = false := by simpa using hu
+            have hl := lineLoop_connOk mode accept ((st.httpHdr ++ av.take rem).length + 1)
+              { st with httpHdr := st.httpHdr ++ av.take rem } ⟨⟨h.1.1, h.1.2⟩, h.2⟩ hu'
+            split <;> rename_i heq <;> rw [heq] at hl
+            · trivial
+            · trivial
+            · exact hl.1
+            · exact ih _ _ hl.1
+
+theorem wsRead_connOk (mode : Mode) (accept : Bytes) (st : St) (av : Bytes) (h : ConnOk st) :
+    ConnOk (wsRead mode accept rxBuf st av).2.1 := by
+  have hfr : ∀ (fuel : Nat) (s : St) (a : Bytes), ConnOk s → s.up = true → ConnOk (readFrame mode rxBuf fuel s a).2.1 := by
+    intro fuel s a hs hu
+    refine ⟨(readFrame_ok mode rxBuf fuel s a hs.1).1, fun hh => ?_⟩
+    rw [readFrame_up, hu] at hh; cases hh
+  unfold wsRead
+  by_cases hu : st.up = true
+  · simp only [hu, Bool.not_true, Bool.false_eq_true, if_false]
+    exact hfr _ st av h hu
+  · simp only [hu, Bool.not_false, if_true]
+    have hr := rdHttpHeader_connOk mode accept (av.length + 2) st av h
+    generalize rdHttpHeader mode accept (av.length + 2) st av = r at hr
+    cases r with
+    | rej => exact h
+    | oob => exact h
+    | ok p =>
+      obtain ⟨st1, av1⟩ := p
+      simp only [HdrResOk] at hr
+      simp only
+      split
+      · exact hr
+      · rename_i h1
+        split
+        · exact hr
+        · exact hfr _ st1 av1 hr (by simpa using h1)
+
+/-- every reader state the event loop leaves behind on a whole connection (fresh state, ANY byte stream, any chunks) -/
+theorem feed_connOk (mode : Mode) (accept : Bytes) (chunks : List Bytes) :
+    ∀ st', (feed mode accept {} chunks).2.1 = .open st' → ConnOk st' :=
+  feed_pres mode accept ConnOk (wsRead_connOk mode accept) chunks {} connOk_init
+
+/-! ### the reader closing the session by itself -/
+
+/-- how a `coap_ws_read` call can close the session by itself: a Close frame header completed (`recv_close` set, no
+drain), a header refused with 1002/1003 and left in `rd_header` (`Refused`), or a frame refused with 1009
+(`all_hdr_in` set, `data_size` above the caller's buffer) -/
+def ClosedHow (mode : Mode) (datalen : Nat) (st' : St) : Prop :=
+  recvCloseOf mode .closed st' = true ∨ Refused mode st' ∨ (st'.allHdrIn = true ∧ st'.dataSize > datalen)
+
+theorem readData_not_closed (mode : Mode) (st : St) (av data : Bytes) (datalen : Nat) :
+    (readData mode st av data datalen).1 ≠ .closed := by
+  unfold readData
+  by_cases h : st.dataSize > datalen
+  · rw [if_pos h]; intro hh; cases hh
+  · rw [if_neg h]; simp only; split <;> (intro hh; cases hh)
+
+theorem readFrame_closed_cases (mode : Mode) (datalen : Nat) : ∀ (fuel : Nat) (st : St) (av : Bytes),
+    (readFrame mode datalen fuel st av).1 = .closed → ClosedHow mode datalen (readFrame mode datalen fuel st av).2.1 := by
+  intro fuel
+  induction fuel with
+  | zero => intro st av h; cases h
+  | succ f ih =>
+    intro st av
+    apply readFrame_cases mode datalen f st av (fun r => r.1 = .closed → ClosedHow mode datalen r.2.1)
+    · intro _ h; exact absurd h (readData_not_closed _ _ _ _ _)
+    · intro _ _ h; cases h
+    · intro b0 b1 r' ha hh
+      apply afterHdrD_cases mode datalen f _ b0 b1 r' _ (fun r => r.1 = .closed → ClosedHow mode datalen r.2.1)
+      · intro hm hb _; exact Or.inr (Or.inl ⟨ha, b0, b1, r', rfl, Or.inl ⟨hm, hb⟩⟩)
+      · intro _ h; cases h
+      · intro hl h2 _
+        by_cases hm : mode = .server ∧ ¬ b1.toNat / 128 = 1
+        · exact Or.inr (Or.inl ⟨ha, b0, b1, r', rfl, Or.inl hm⟩)
+        · by_cases h8 : b0.toNat % 16 = 8
+          · refine Or.inl ?_
+            simp only [recvCloseOf, ha, h8]
+            have : ¬ (mode = .server ∧ ¬ b1.toNat / 128 = 1) := hm
+            by_cases hs : mode = .server
+            · have : b1.toNat / 128 = 1 := by
+                rcases Classical.em (b1.toNat / 128 = 1) with h | h
+                · exact h
+                · exact absurd ⟨hs, h⟩ hm
+              simp [this]
+            · simp [hs]
+          · exact Or.inr (Or.inl ⟨ha, b0, b1, r', rfl, Or.inr ⟨hl, h2, h8⟩⟩)
+      · intro _ _ hbig _; exact Or.inr (Or.inr ⟨rfl, hbig⟩)
+      · intro _ _ _; exact ih _ _
+      · intro _ _ _ h; cases h
+      · intro _ _ _ _ h; cases h
+      · intro _ _ _ _ h; exact absurd h (readData_not_closed _ _ _ _ _)
+      · intro _ _ _ _ _ h; cases h
+      · intro _ _ _ _ h; exact absurd h (readData_not_closed _ _ _ _ _)
+
+theorem wsRead_closed (mode : Mode) (accept : Bytes) (datalen : Nat) (st : St) (av : Bytes)
+    (h : (wsRead mode accept datalen st av).1 = .closed) : ClosedHow mode datalen (wsRead mode accept datalen st av).2.1 := by
+  unfold wsRead at h ⊢
+  by_cases hu : st.up = true
+  · simp only [hu, Bool.not_true, Bool.false_eq_true, if_false] at h ⊢
+    exact readFrame_closed_cases mode datalen _ st av h
+  · simp only [hu, Bool.not_false, if_true] at h ⊢
+    generalize rdHttpHeader mode accept (av.length + 2) st av = r at h ⊢
+    cases r with
+    | rej => cases h
+    | oob => cases h
+    | ok p =>
+      obtain ⟨st1, av1⟩ := p
+      simp only at h ⊢
+      split at h
+      · cases h
+      · rename_i h1
+        split at h
+        · cases h
+        · rename_i h2
+          simp only [h1, h2, if_false] at ⊢
+          exact readFrame_closed_cases mode datalen _ st1 av1 h
+
+/-- the state `coap_ws_close` is entered with when the reader closes the session by itself -/
+theorem refusalPoint_closed (mode : Mode) (accept : Bytes) : ∀ (fuel idle : Nat) (st : St) (av : Bytes) (st' : St) (av' : Bytes),
+    refusalPoint mode accept fuel idle st av = some (st', av') → ClosedHow mode rxBuf st' := by
+  intro fuel
+  induction fuel with
+  | zero => intro idle st av st' av' h; cases h
+  | succ f ih =>
+    intro idle st av st' av' h
+    rw [refusalPoint] at h
+    have hc := wsRead_closed mode accept rxBuf st av
+    generalize wsRead mode accept rxBuf st av = r at h hc
+    obtain ⟨ret, st1, av1⟩ := r
+    cases ret with
+    | err => cases h
+    | oob => cases h
+    | closed =>
+      simp only [Option.some.injEq, Prod.mk.injEq] at h
+      obtain ⟨rfl, rfl⟩ := h
+      exact hc rfl
+    | zero =>
+      simp only at h
+      split at h
+      · cases h
+      · split at h
+        · split at h
+          · cases h
+          · exact ih _ _ _ _ _ h
+        · exact ih _ _ _ _ _ h
+    | pkt pl =>
+      simp only at h
+      split at h
+      · exact ih _ _ _ _ _ h
+      · cases h
+
+/-- the reader's own `coap_ws_close`, on every input: either a Close frame was received (no drain), or the drain runs
+from a refused header / refused frame and cannot progress — `recv_close` stays 0, after 1009 nothing is read at all
+(five calls returning -1 if bytes are pending), after 1002/1003 at most the free room of `rd_header` is read -/
+theorem selfClose_cases (mode : Mode) (accept : Bytes) (st : St) (chunk : Bytes) (r : Bool × St × Bytes × Nat)
+    (h : selfClose mode accept st chunk = some r) :
+    ∃ st' av', refusalPoint mode accept (6 * (chunk.length + 1)) 0 st chunk = some (st', av') ∧
+      ((recvCloseOf mode .closed st' = true ∧ r = (true, st', av', 0)) ∨
+       (Refused mode st' ∧ r.1 = false ∧ Refused mode r.2.1 ∧
+          av'.length ≤ r.2.2.1.length + (fsCap - st'.rdHeader.length) ∧ r.2.2.2 ≤ drainCount) ∨
+       (st'.allHdrIn = true ∧ st'.dataSize > rxBuf ∧ r = (false, st', av', if av'.length = 0 then 0 else drainCount))) := by
+  unfold selfClose at h
+  cases hp : refusalPoint mode accept (6 * (chunk.length + 1)) 0 st chunk with
+  | none => rw [hp] at h; cases h
+  | some p =>
+    obtain ⟨st', av'⟩ := p
+    rw [hp] at h
+    simp only at h
+    refine ⟨st', av', rfl, ?_⟩
+    by_cases hr : recvCloseOf mode .closed st' = true
+    · simp only [hr, if_true, Option.some.injEq] at h
+      exact Or.inl ⟨hr, h.symm⟩
+    · simp only [hr, Bool.false_eq_true, if_false, Option.some.injEq] at h
+      subst h
+      rcases refusalPoint_closed mode accept _ _ _ _ _ _ hp with hc | hc | hc
+      · exact absurd hc hr
+      · have := closeDrain_refused mode drainCount st' av' hc
+        exact Or.inr (Or.inl ⟨hc, this.1, this.2.1, this.2.2, closeDrain_calls_le mode drainCount st' av'⟩)
+      · refine Or.inr (Or.inr ⟨hc.1, hc.2, ?_⟩)
+        exact closeDrain_oversize mode drainCount st' av' hc.1 (by have := hc.2; simp only [rxBuf, drainBuf] at *; omega)
 
 end Coap
